@@ -27,7 +27,8 @@ class C10(object):
     assumptions = ['steady-state initialisation off', "initial conditions are spelled X(0) as the model emits them",
                    'a horizon assigned to the solver after ParseString is not "the horizon" (picked up on next parse)']
     required_counters = ('length.judged', 'exo.judged', 'ic.judged', 'lag.judged', 'time.judged', 'reject.judged',
-                         'model.judged', 'solver_reused.cases', 'ic_on_default_time.judged')
+                         'model.judged', 'solver_reused.cases', 'ic_on_default_time.judged',
+                         'solver_horizon_overrides_line.cases')
 
     def n_cases(self, tier):
         return 320 if tier == 'quick' else 30000
@@ -51,10 +52,17 @@ class C10(object):
                  [c['name'] for c in spec['consts']])
         for nm in rng.sample(cands, min(len(cands), rng.randint(0, 4))):
             spec['ics'][nm] = G.nice(rng, -5.0, 20.0) if rng.random() < 0.8 else float(rng.randint(-3, 9))
-        via = rng.choice(['line', 'line', 'solver'])
+        via = rng.choice(['line', 'line', 'solver', 'solver_override'])
         if spec['time'] is None and rng.random() < 0.3:
             spec['ics']['t'] = rng.choice([1990.0, 2000.0, -1.0, 0.5])     # initial condition on the DEFAULT time axis
-        case = {'kind': 'solve', 'spec': spec, 'text': G.render(spec, with_params=(via == 'line')),
+        text = G.render(spec, with_params=(via == 'line'))
+        if via == 'solver_override':
+            # the block states another horizon; the one set on the solver before parsing wins (as Model does it)
+            other = dict(spec, maxtime=maxtime + rng.choice([3, 7, 40]))
+            for e in other['exos']:
+                pass
+            text = G.render(dict(spec, tol=1e-9), with_params=False) + '\nMaxTime = %d\nErr_Tolerance = 1e-9' % other['maxtime']
+        case = {'kind': 'solve', 'spec': spec, 'text': text,
                 'via': via, 'reduction': rng.random() < 0.5, 'earlier': None}
         if via == 'line' and rng.random() < 0.35:
             # the same solver object has already parsed and solved another block with another horizon
@@ -143,9 +151,11 @@ class C10(object):
         T = spec['maxtime']
         solver = EquationSolver(run_equation_reduction=case['reduction'])
         solver.MaxIterations = 4000
-        if case['via'] == 'solver':
+        if case['via'] in ('solver', 'solver_override'):
             solver.MaxTime = T
             solver.ParameterErrorTolerance = 1e-9
+            if case['via'] == 'solver_override':
+                rec.count('solver_horizon_overrides_line.cases')
         if case.get('earlier'):
             try:
                 with contextlib.redirect_stdout(io.StringIO()):
